@@ -1,0 +1,29 @@
+//go:build verif
+
+package hls
+
+// Machine-checked contracts for /verif (govc). Comment-only: compiled only with -tags verif, adds no code.
+
+// C43: a session is found only by its secret (cookie, else query parameter) in the muxer's own table and
+// only for the client address it was created for; media playlists and segments are handed to a muxer's
+// handler only for the muxer of the requested path and only with such a session of that muxer, or for a
+// request carrying the configured (non-empty) CDN secret.
+
+//@ func (m *muxer) findSession
+//@   property C43
+//@   safety -all
+//@   def raw() string = ite(cookieOK(ctx.Request, sessionCookieName), cookieVal(ctx.Request, sessionCookieName), queryGet(urlQuery(ctx.Request.URL), sessionQueryParamName))
+//@   ensures [found-by-secret-in-this-muxer] result != nil ==> uuidOK(raw()) && has(old(m.sessionsBySecret), uuidOf(raw())) && result == old(m.sessionsBySecret[uuidOf(raw())])
+//@   ensures [same-client-address] result != nil ==> ginClientIP(ctx) == old(result.ip)
+
+//@ func (s *httpServer) onRequest
+//@   property C43
+//@   safety -all
+//@   def cdn() bool = old(caller_s.cdnSecret) != "" && hdrGet(old(caller_ctx.Request.Header), "Authorization") == "Bearer " + old(caller_s.cdnSecret)
+//@   assert-call getMuxer: req.path == dir
+//@   assert-call muxer.handleRequest: isCDN == cdn()
+//@   assert-call muxer.handleRequest: (contentTyp == 2 || contentTyp == 3) ==> called(getMuxer) == 1 && resultof(getMuxer, 1) == nil && m == resultof(getMuxer, 0) && (isCDN || (called(findSession) == 1 && resultof(findSession) != nil))
+//@   assert-call findSession: m == resultof(getMuxer, 0) && ctx == caller_ctx
+//@   assert-call muxer.handleRequest: (contentTyp == 1 && !isCDN) ==> called(session.initialize) == 1
+//@   assert-call muxer.handleRequest: (contentTyp == 1 && !isCDN) ==> resultof(session.initialize) == nil
+//@   assert-call session.initialize: s.pathName == dir && s.isCDN == cdn()
